@@ -35,12 +35,24 @@ func (gs *guardState) alive() {
 	}
 }
 
+// hungOnce is set by the first no-termination failure of this worker process:
+// the abandoned goroutine keeps a core busy and the same defect would make
+// most later cases wait for the watchdog as well (the internal deadline is
+// only looked at every 64 cases), so the remaining cases of this shard are
+// skipped and the run is marked as not exhaustive.
+var hungOnce bool
+
 func guard(t *vlib.T, body func()) {
+	if hungOnce {
+		t.Incomplete("case skipped: an earlier case of this shard did not terminate (class no-termination)")
+		return
+	}
 	gs := &guardState{}
 	curGuard = gs
 	p, timedOut := vlib.RunWithWatchdog(body, watchdogLimit)
 	if timedOut {
 		gs.dead.Store(true)
+		hungOnce = true
 		t.NoConfirm()
 		t.FailClass("no-termination", "the case body did not finish within %v: a gonum routine called by this case does not terminate (or is slower by orders of magnitude)", watchdogLimit)
 		return
